@@ -21,6 +21,11 @@ import (
 
 type byzPlan struct{}
 
+type byzBatch struct {
+	src    *ipfslog.IPFSLog
+	s, rcv *Node
+}
+
 func linkKeyBytes(k byte) []byte {
 	b := make([]byte, 32)
 	for i := range b {
@@ -536,7 +541,20 @@ func (w *World) doByz() {
 	if s == nil || rcv == nil || s == rcv {
 		return
 	}
-	src := w.freshBatch(s, batch)
+	retry := w.lastByz != nil && r.Choose("byz-retry", 3) == 0
+	var src *ipfslog.IPFSLog
+	if retry {
+		// the sender tries again with the same batch (entries the receiver may already have looked at),
+		// tampered differently this time
+		src, s, rcv = w.lastByz.src, w.lastByz.s, w.lastByz.rcv
+		if !s.Up || !rcv.Up {
+			return
+		}
+		r.Probe("byz-retry-of-earlier-batch")
+	} else {
+		src = w.freshBatch(s, batch)
+		w.lastByz = &byzBatch{src: src, s: s, rcv: rcv}
+	}
 	srcEntries := map[string]iface.IPFSLogEntry{}
 	for _, e := range src.GetEntries().Slice() {
 		srcEntries[e.GetHash().String()] = e
@@ -625,9 +643,6 @@ func (w *World) doByz() {
 	// invalid entry legitimately leaves a hole, and the rest of the world assumes closed logs
 	dst := w.clone(rcv, true)
 	dstSet := copySet(rcv.Set)
-	if !w.P.Check["C06"] && !anyBad {
-		return // outside the C06 check only merges that must be refused are of interest
-	}
 	if anyBad && (r.Choose("byz-into-real-node", 2) == 0 || !w.P.Check["C06"]) {
 		// a merge that must be refused can target the replica itself: it has to leave it untouched,
 		// and the rest of the run continues on whatever it really left
